@@ -9,6 +9,7 @@ CONSTANTS
   MaxAdds = 1
   MaxEnds = 1
   AtomicAdd = FALSE
+  ClosedRefuses = FALSE
   SplitGet = FALSE
   RecheckOnStore = TRUE
   StaleTimers = FALSE
